@@ -100,9 +100,27 @@ def arrays_for(p, rng, quick):
 
 def events_for(p, rng, quick):
     evs = []
-    for label, regs in arrays_for(p, rng, quick):
+    for j, (label, regs) in enumerate(arrays_for(p, rng, quick)):
         sk = impl.hyperloglog.HyperLogLog(p, 0)
-        sk.registers[:] = regs
+        how = j % 3
+        if how == 0:
+            sk.registers[:] = regs
+        else:
+            # the register state is reached on an object that has ALREADY answered a query for another
+            # state: by a merge (how 1) or by a write to the register block, as an owner's add appears to
+            # an attached view (how 2) -- query() is a function of the current registers
+            lower = regs.copy()
+            lower[rng.sample(range(len(lower)), len(lower) // 2)] = 0
+            sk.registers[:] = lower
+            sk.query()
+            if how == 1:
+                other = impl.hyperloglog.HyperLogLog(p, 0)
+                other.registers[:] = regs
+                sk.merge(other)
+            else:
+                sk.registers[:] = regs
+            if not np.array_equal(sk.registers, regs):
+                raise common.ImplMisbehaved("HyperLogLog(p=%d): merge did not produce the element-wise maximum" % p)
         got = float(sk.query())
         if not math.isfinite(got):
             raise common.ImplMisbehaved("HyperLogLog(p=%d).query() returned %r for the register array '%s'" % (p, got, label))
